@@ -56,8 +56,9 @@ type symRef struct {
 }
 
 type chanv struct {
-	buf []value
-	cap int
+	buf    []value
+	cap    int
+	closed bool
 }
 
 // normStr returns a native string if all bytes are concrete.
